@@ -473,6 +473,7 @@ func (k *keeper) accountWithdraw(ctx sdk.Context, obj *types.Account) error {
 	}
 
 	if obj.Balance.IsZero() {
+		k.saveAccount(ctx, obj)
 		return nil
 	}
 
@@ -494,6 +495,7 @@ func (k *keeper) paymentWithdraw(ctx sdk.Context, obj *types.Payment) error {
 	}
 
 	if obj.Balance.IsZero() {
+		k.savePayment(ctx, obj)
 		return nil
 	}
 
